@@ -439,7 +439,7 @@ impl Property for C14 {
          <std>/ names inside and outside the built-in library and missing files. One case in five names a second root file on the command line (one assembly: shared #once set, inclusion stack per root). Oracle R-INCL on the in-memory file server: the expected marker sequence, or rejection. One case in ten instead puts the rules (and `#fn` functions) in a file of another directory and writes inclusion functions in instruction operands (direct, through a sub-rule), in productions, in function bodies and in an argument that a rule substitutes textually into an asm block: each path is relative to the file that contains its text. One case in twelve is \
          also materialised on the real file system in a scratch project directory (with a directory literally named `<std>` and a sentinel file one and two levels above) and assembled by the \
          real binary with a relative root: exit status and output must match the model and the sentinel's marker must never appear; a third of these runs spell the root `./name` (with a decoy of the hostile target's name inside the project). ENUMERATED: incbin / incbinstr / inchexstr on files of length \
-         0..12 x every start 0..14 or absent x every length 0..14, absent or 2^64-1: ranges inside the file give exactly those bytes/digits, ranges past the end are rejected, also for an empty file (empty ranges and start = size are run but not asserted); x digit variants for the text functions: lower-case digits, upper-case hexadecimal digits, one character that is no digit of the radix inside the requested range (must be rejected). Non-trivial = (tree) a `..` or root-anchored spelling with >= 3 files, or a hostile path, (function) an explicit start or length."
+         0..12 x every start 0..14 or absent x every length 0..14, absent or 2^64-1: ranges inside the file give exactly those bytes/digits, ranges past the end are rejected, also for an empty file (empty ranges and start = size are run but not asserted); x digit variants for the text functions: lower-case digits, upper-case hexadecimal digits, one character that is no digit of the radix inside the requested range (must be rejected). Non-trivial = (tree) a `..` or root-anchored spelling with >= 3 files, or a hostile path, (function) an explicit start or length. (v4) one file in four puts a run of its entries into the taken arm of a conditional block with a constant condition (`#if 1 == 1 {..} #else {..}`, `#if 1 == 0 {..} #else {..}`, `#if false {..} #elif true {..}`, `#if true {..}`, sometimes nested), with markers or an inclusion in the arm that is not taken: inclusions are resolved in BOTH arms (missing files and cycles are errors there too), markers only count in the taken one, and a #once file reached from inside a block is an error."
             .to_string()
     }
     fn assumptions(&self) -> Vec<String> {
